@@ -23,10 +23,10 @@ CFG = {
     ],
     "partial": {},
     "n": {"quick": 400, "thorough": 20000},
-    "exhaustive": {"quick": True, "thorough": True},
-    "rule": "corpus (defect #32 inputs, spot checks); exhaustive: every 2-byte terminator over {SP,CR,LF,NUL,x} x 4 type letters x "
+    "exhaustive": {"quick": False, "thorough": False},
+    "rule": "the input space is infinite (exhaustive=false); fully enumerated sub-spaces on every run: every 2-byte terminator over {SP,CR,LF,NUL,x} x 4 type letters x "
             "entry position (first subsection / first and second entry of a later subsection), the 3 legal terminators x 10 "
-            "continuations; all 125 width triples {0..4}^3 x with/without /Index x random rows (plus truncated rows, a type byte "
+            "continuations, all 125 width triples (listed below); corpus (defect #32 inputs, spot checks, past failures); all 125 width triples {0..4}^3 x with/without /Index x random rows (plus truncated rows, a type byte "
             "above 2, Flate with none/Predictor 1/PNG-Up at two compression levels); 44 single-field corruptions of the stream "
             "dictionary; n random legal tables (1-4 subsections, random starts up to 2^63-1000, leading zeros, blanks, header EOLs, "
             "0-5 entries, 3 terminators) each with 2 (quick) or all 18 (thorough) single-field corruptions of one entry, one "
@@ -59,11 +59,14 @@ LEVEL = {
             "(table_roundtrip); XrefEntP accepts iff the 20 bytes under the cursor are in the fixed form, with value/span/cursor as "
             "specified, and never panics (entry_spec); a malformed entry reached by the count of a second or later subsection makes "
             "the whole section fail (table_malformed_later_subsection_rejected - the fixed code; the shipped loop is shown to "
-            "truncate silently by old_loop_truncates_witness); (stream) for all widths in {0..4}^3, /Index partitions or the "
+            "truncate silently by old_loop_truncates_witness; table_malformed_rejected covers the first subsection too); (stream) for all widths in {0..4}^3, /Index partitions or the "
             "implicit [0 Size], rows fitting the widths decode to exactly the written entries (xrefstream_rows_roundtrip); "
             "get_dict_info rejects iff the dictionary is malformed in the listed ways and otherwise returns the denoted "
             "subsections and widths, never panicking (dictinfo_rejects/accepts/never_panics); entries are numbered start+k on every "
             "accepted input (numbering_consecutive); each row consumes >= 1 byte so a hostile /Size fails at the first missing row "
-            "(rows_terminate, rows_hostile_count_rejected). Tied to the code by a correspondence run over encoder-generated tables "
+            "(rows_terminate, rows_hostile_count_rejected); for unfiltered, unencrypted streams XrefStreamP accepts exactly when the "
+            "declarative slicing of the content accepts and returns exactly its entries - truncated rows, types above 2 and all "
+            "dictionary malformations are rejected (xrefstream_spec); neither decoder can panic and the fuel of the two modelled "
+            "loops suffices (table_never_panics, parseStream_never_panics, wsEolLoop/sectLoop_fuel_sufficient). Tied to the code by a correspondence run over encoder-generated tables "
             "and streams, single-field corruptions, all 125 width triples and Flate+PNG-Up compositions.",
 }
